@@ -1,6 +1,7 @@
 package bcheck
 
 import (
+	"verif/internal/refcodec"
 	"os"
 	"strconv"
 	"errors"
@@ -23,7 +24,7 @@ import (
 func init() {
 	Registry["C14"] = &Check{
 		Scenarios: c14Scenarios,
-		Rule: "events: CloseNotify requested {inside the first handler, by a free application thread at every possible instant (in particular while the reader is parked in Read), twice (handler + thread), after termination}; two messages delivered in three fragments (one fragment boundary inside the first header); termination by {peer EOF, transport read error, a read error that reports itself as temporary (once), EOF / read error returned by the same Read that delivers the last message (n > 0 with err != nil), undecodable header followed by trailing bytes, local Close from a free thread at every instant, a handler panic on the second message (recovered by the serve loop)}; an observer thread records the instant the channel closes. The requesting / closing / observing threads and the peer are environment threads, so every ordering of their steps against the library's steps is explored even at preemption bound 0; library preemption bound 2 (quick) / unbounded (thorough). The same request modes {handler, thread, after} x terminations {EOF, undecodable input, local Close} on a multistream (in-memory SCTP) connection, where CloseNotify installs a read-error handler. Also sm.Client with the watchdog enabled followed by a quiet peer close (virtual time, horizon 12 s).",
+		Rule: "events: CloseNotify requested {inside the first handler, by a free application thread at every possible instant (in particular while the reader is parked in Read), twice (handler + thread), after termination}; two messages delivered in three fragments (one fragment boundary inside the first header); termination by {peer EOF, transport read error, a read error that reports itself as temporary (once), EOF / read error returned by the same Read that delivers the last message (n > 0 with err != nil), undecodable header followed by trailing bytes, local Close from a free thread at every instant, a handler panic on the second message (recovered by the serve loop)}; an observer thread records the instant the channel closes. The requesting / closing / observing threads and the peer are environment threads, so every ordering of their steps against the library's steps is explored even at preemption bound 0; library preemption bound 2 (quick) / unbounded (thorough). The same request modes {handler, thread, after} x terminations {EOF, undecodable input, local Close} on a multistream (in-memory SCTP) connection, where CloseNotify installs a read-error handler. Also sm.Client with the watchdog enabled followed by a quiet peer close, preceded by 0, 1, 2 or 3 unsolicited success DWAs (in one segment or one segment each) (virtual time, horizon 12 s).",
 		Assume: []string{"data-race freedom between visible operations (audited separately with -race)", "io.Pipe is modelled by vsched.Pipe (Write blocks until the data is consumed or either end is closed)"},
 		QuickBudget: 100, ThoroughBudget: 1500,
 	}
@@ -74,7 +75,7 @@ func c14Scenarios(tier string) []*Scenario {
 			out = append(out, c14Multi(req, term, bound))
 		}
 	}
-	out = append(out, c14Watchdog(bound))
+	out = append(out, c14Watchdog(bound), c14WatchdogStray(1, false, bound), c14WatchdogStray(2, true, bound), c14WatchdogStray(2, false, bound), c14WatchdogStray(3, true, bound))
 	// client handshakes that end exactly at the deadline: whatever the outcome, once the transport
 	// is closed every goroutine the library started must have exited
 	for _, kind := range []string{"fail", "success", "norc", "disconnect"} {
@@ -364,7 +365,11 @@ func c14Multi(req, term string, bound int) *Scenario {
 
 // c14Watchdog: sm.Client with the watchdog on; the peer answers the CER and then closes
 // quietly. Every goroutine the library started must exit.
-func c14Watchdog(bound int) *Scenario {
+func c14Watchdog(bound int) *Scenario { return c14WatchdogStray(0, false, bound) }
+
+// stray: number of success DWAs the peer sends without having been asked (late answers to DWRs of
+// an earlier life of the peer, duplicates) between the handshake and its disconnect.
+func c14WatchdogStray(stray int, oneSegment bool, bound int) *Scenario {
 	body := func() {
 		st := &c14State{}
 		c14st = st
@@ -384,6 +389,19 @@ func c14Watchdog(bound int) *Scenario {
 			}
 			conn.Deliver(peerAnswer(req, 2001, true))
 			vs.TimeSleep(2 * time.Second)
+			var all []byte
+			for i := 0; i < stray; i++ {
+				vs.Event("peer: unsolicited DWA")
+				b := refcodec.EncodeMessage(refcodec.Header{Version: 1, Code: 280, HbH: uint32(900 + i), E2E: 1},
+					[]refcodec.Node{u32avp(268, 2001), ident(264, "srv"), ident(296, "test")})
+				if oneSegment {
+					all = append(all, b...)
+					continue
+				}
+				conn.Deliver(b)
+				vs.Yield("env")
+			}
+			conn.Deliver(all)
 			st.termIssued = true
 			vs.Event("peer: EOF")
 			conn.PeerEOF()
@@ -410,7 +428,11 @@ func c14Watchdog(bound int) *Scenario {
 		}
 		return strings.Join(v, " | ")
 	}
-	return &Scenario{Name: "client-watchdog/quiet-close", Body: body, Check: check, Bound: bound, Horizon: 12 * time.Second,
+	name := "client-watchdog/quiet-close"
+	if stray > 0 {
+		name = fmt.Sprintf("client-watchdog/%d-unsolicited-DWAs-then-close/one-segment=%v", stray, oneSegment)
+	}
+	return &Scenario{Name: name, Body: body, Check: check, Bound: bound, Horizon: 12 * time.Second,
 		Outcome: func(s *vs.Sched) string { return fmt.Sprintf("blockedlib=%d end=%v", len(s.BlockedLib()), s.EndTime) }}
 }
 
